@@ -34,7 +34,11 @@ import (
 	"sort"
 	"strconv"
 	"strings"
+	"sync"
+	"sync/atomic"
 	"syscall"
+
+	"golang.org/x/sys/unix"
 
 	"google.golang.org/protobuf/types/known/timestamppb"
 
@@ -1067,6 +1071,125 @@ func namesCanary(e *core.Entry) bool {
 	return false
 }
 
+// raceCase: a genuinely concurrent adversary. A goroutine keeps exchanging root/sub (a directory) with
+// root/.swap (an in-root symbolic link to the canary directory) with renameat2(RENAME_EXCHANGE) while the real
+// primitives are used on "sub": Opener.OpenFile (what staging and rsync use) and, one level lower,
+// ReadContents + OpenDirectory + RemoveFile (what scans and directory removals use). Every attempt must fail or
+// stay inside the root: with openat(O_NOFOLLOW) (Properties/C17 open_flags_never_follow) there is no window, so
+// this never fires on code that holds the property; a check-then-open rewrite is caught within a few attempts.
+// The number of attempts is fixed (no wall-clock bound decides anything).
+func (w *world) raceCase(c *hx.Ctx, kind string, attempts int) {
+	const inside, outside = "inside the synchronization root", "CANARY: outside the synchronization root"
+	var base string
+	for _, cand := range []string{w.scratch + "-race", w.xdev + "/race"} {
+		os.RemoveAll(cand)
+		must(os.MkdirAll(cand+"/root/sub/inner", 0o700))
+		must(os.MkdirAll(cand+"/canary/inner", 0o700))
+		must(os.Symlink("../canary", cand+"/root/.swap"))
+		a, b := cand+"/root/sub", cand+"/root/.swap"
+		if unix.Renameat2(unix.AT_FDCWD, a, unix.AT_FDCWD, b, unix.RENAME_EXCHANGE) == nil {
+			must(unix.Renameat2(unix.AT_FDCWD, a, unix.AT_FDCWD, b, unix.RENAME_EXCHANGE))
+			base = cand
+			break
+		}
+		os.RemoveAll(cand)
+	}
+	if base == "" {
+		c.Count("race:exchange-unsupported")
+		return
+	}
+	defer os.RemoveAll(base)
+	root, canary := base+"/root", base+"/canary"
+	for _, f := range []string{"/data.txt", "/inner/x.txt"} {
+		must(os.WriteFile(root+"/sub"+f, []byte(inside), 0o600))
+		must(os.WriteFile(canary+f, []byte(outside), 0o600))
+	}
+	var stop atomic.Bool
+	var flips atomic.Int64
+	var wg sync.WaitGroup
+	wg.Add(1)
+	go func() {
+		defer wg.Done()
+		a, b := root+"/sub", root+"/.swap"
+		n := 0
+		for !stop.Load() {
+			if unix.Renameat2(unix.AT_FDCWD, a, unix.AT_FDCWD, b, unix.RENAME_EXCHANGE) == nil {
+				n++
+				flips.Add(1)
+			}
+		}
+		if n%2 == 1 {
+			unix.Renameat2(unix.AT_FDCWD, a, unix.AT_FDCWD, b, unix.RENAME_EXCHANGE)
+		}
+	}()
+	oracle := ""
+	okReads := 0
+	switch kind {
+	case "opener":
+		for i := 0; i < attempts && oracle == ""; i++ {
+			for _, path := range []string{"sub/data.txt", "sub/inner/x.txt"} {
+				opener := filesystem.NewOpener(root)
+				file, _, err := opener.OpenFile(path)
+				if err != nil {
+					opener.Close()
+					continue
+				}
+				content, err := io.ReadAll(file)
+				file.Close()
+				opener.Close()
+				if err != nil {
+					continue
+				}
+				okReads++
+				if string(content) != inside {
+					oracle = fmt.Sprintf("class=escape-race attempt %d: Opener.OpenFile(%q) followed an in-root symbolic link swapped in concurrently and read %q", i, path, content)
+				}
+			}
+		}
+	case "directory":
+		rootDirectory, _, err := filesystem.OpenDirectory(root, false)
+		must(err)
+		for i := 0; i < attempts && oracle == ""; i++ {
+			contents, err := rootDirectory.ReadContents()
+			must(err)
+			for _, e := range contents {
+				if e.Mode&filesystem.ModeTypeMask != filesystem.ModeTypeDirectory {
+					continue
+				}
+				child, err := rootDirectory.OpenDirectory(e.Name)
+				if err != nil {
+					continue
+				}
+				if child.RemoveFile("data.txt") == nil {
+					okReads++
+				}
+				child.Close()
+			}
+			if _, err := os.Lstat(canary + "/data.txt"); err != nil {
+				oracle = fmt.Sprintf("class=escape-race attempt %d: a file outside the root was deleted through an in-root symbolic link swapped in concurrently", i)
+			}
+			// put the in-root file back without ever following a link
+			for _, name := range []string{"sub", ".swap"} {
+				fd, err := unix.Openat(rootDirectory.Descriptor(), name, unix.O_RDONLY|unix.O_DIRECTORY|unix.O_NOFOLLOW|unix.O_CLOEXEC, 0)
+				if err != nil {
+					continue
+				}
+				if f, err := unix.Openat(fd, "data.txt", unix.O_WRONLY|unix.O_CREAT|unix.O_NOFOLLOW|unix.O_CLOEXEC, 0o600); err == nil {
+					unix.Write(f, []byte(inside))
+					unix.Close(f)
+				}
+				unix.Close(fd)
+			}
+		}
+		rootDirectory.Close()
+	}
+	stop.Store(true)
+	wg.Wait()
+	c.Count("race:" + kind)
+	c.Note(fmt.Sprintf("race %s: %d attempts, %d in-root successes, %d concurrent flips", kind, attempts, okReads, flips.Load()))
+	c.Case(fmt.Sprintf("race %s %d", kind, attempts), "race:contained", oracle, "race:"+kind)
+}
+
 func main() {
 	hx.Main("C17", func(c *hx.Ctx) {
 		scratch := scanx.Scratch("c17")
@@ -1097,6 +1220,8 @@ func main() {
 		} else {
 			c.Count("self-test:read-detected-by-atime")
 		}
+		w.raceCase(c, "opener", c.Size(4000, 40000))
+		w.raceCase(c, "directory", c.Size(1500, 15000))
 		n := c.Size(2000, 20000)
 		for i := 0; i < n; i++ {
 			if i%5 == 4 {
